@@ -738,10 +738,16 @@ def main(ctx):
                 return rec.ok(case, outcome="mismatch-rejected:%s" % type(e).__name__, nontrivial=True, calls=1)
             return rec.fail(case, "%s accepted arrays of lengths %r and returned %r" % (meth, lens, got))
         n = lens[0]
+        snaps = [(a.dtype.str, a.shape, a.tobytes()) if isinstance(a, np.ndarray) else None for a in args]
         try:
             got = f(*args)
         except Exception as e:
             return rec.fail(case, "%s raised %s: %s" % (meth, type(e).__name__, e))
+        for a, sn in zip(args, snaps):
+            if sn is not None and (a.dtype.str, a.shape, a.tobytes()) != sn:
+                return rec.fail(case, "%s modified its redshift array argument: now %r" % (meth, a.tolist()))
+            if sn is not None and isinstance(got, np.ndarray) and np.shares_memory(got, a):
+                return rec.fail(case, "%s returned an array that shares memory with its argument" % meth)
         zero_d = any(s[0] == "0d" for s in specs)
         if not (isinstance(got, np.ndarray) and got.dtype == np.float64):
             return rec.fail(case, "%s returned %r, not a float64 array" % (meth, got))
